@@ -71,6 +71,17 @@ for _stmt, _want, _find, _why in (
         ("ga()[gi(0)][gi(1)] = gv(\"Z\")", "(s:76);(s:61);(s:69);(s:69)", "store-back-reevaluates-target", "a store into a character of a string held in a list slot (the new string is stored back)"),
         ("ga()[gi(0)][gi(2)] = gv(\"Z\")", "(s:76);(s:61);(s:69);(s:69)", "store-back-reevaluates-target", "an append to a string held in a list slot")):
     EXPECT.append({"src": _TGT + _stmt + "\nnil", "field": "trace", "want": _want, "finding": _find, "why": "assignment target: " + _why + " evaluates the operands of the target exactly once"})
+# an operand that cannot be converted for a Go parameter ends the evaluation of the operands after it
+for _src, _want, _why in (
+        ("hsum(\"p\", probe(1), probe(\"x\"), probe(3))\nnil", "(i:1);(s:78)", "typed variadic tail of a Go function, ill-typed operand in the middle"),
+        ("hsum(\"p\", probe(\"x\"), probe(2), probe(3))\nnil", "(s:78)", "typed variadic tail, ill-typed first operand of the tail"),
+        ("hsum(probe([1]), probe(2), probe(3))\nnil", "([i:1])", "ill-typed fixed operand before a variadic tail"),
+        ("hsum(\"p\", probe(1), probe(2), probe(\"x\"))\nnil", "(i:1);(i:2);(s:78)", "typed variadic tail, ill-typed last operand"),
+        ("hjoin(probe(\"a\"), probe([1]), probe(\"c\"))\nnil", "(s:61);([i:1])", "variadic string tail, ill-typed operand in the middle"),
+        ("hfix2t(probe(1), probe([2]), probe(3))\nnil", "(i:1);([i:2])", "fixed parameters of a Go function, ill-typed operand in the middle"),
+        ("hfix2t(probe(\"x\"), probe(\"b\"), probe(3))\nnil", "(s:78)", "fixed parameters of a Go function, ill-typed first operand"),
+        ("hsum(\"p\", probe(1), probe(2), probe(3))", "(i:1);(i:2);(i:3)", "a well-typed call evaluates every operand once, in order")):
+    EXPECT.append({"src": _src, "field": "trace", "want": _want, "why": "conversion for a Go parameter: " + _why})
 # the same for a field of a struct value held in a list slot: the changed struct is stored back
 _TGS = "sl = [make(struct { A int64 })]; ts = make([]struct { A int64 }, 1)\nfunc gs() { probe(\"s\"); return sl }\nfunc gt() { probe(\"t\"); return ts }\nfunc gi(n) { probe(\"i\"); return n }\nfunc gv(x) { probe(\"v\"); return x }\n"
 EXPECT.append({"src": _TGS + "gt()[gi(0)].A = gv(5)\nnil", "field": "trace", "want": "(s:76);(s:74);(s:69)", "finding": None,
